@@ -175,11 +175,11 @@ func VH_C08_failure_while_stopping() {
 	d := &vhDecider{decision: vivid.SupervisionDecisionRestart}
 	p := w.spawn(w.root, "p", vhLogged("p"), vivid.WithActorSupervisionStrategy(vivid.OneForOneStrategy(d)))
 	a := vhLogged("c")
-	site := vrtChoose(3)
+	site := vrtChoose(4)
 	inner := a.onMsg
 	a.onMsg = func(ctx vivid.ActorContext, m vivid.Message) {
 		inner(ctx, m)
-		switch m.(type) {
+		switch k := m.(type) {
 		case *vivid.OnKill:
 			if site == 0 {
 				panic("in-onkill")
@@ -188,6 +188,10 @@ func VH_C08_failure_while_stopping() {
 			if site == 1 {
 				panic("in-onkilled")
 			}
+			if site == 3 && !k.Ref.Equals(ctx.Ref()) {
+				// a child's termination notice, handled while this actor is itself stopping
+				panic("in-child-onkilled-while-stopping")
+			}
 		case *vhUserMsg:
 			if site == 2 {
 				panic("in-user-while-running")
@@ -195,6 +199,11 @@ func VH_C08_failure_while_stopping() {
 		}
 	}
 	c := w.spawn(p, "c", a)
+	if site == 3 {
+		w.spawn(c, "k0", vhLogged("k0"))
+		w.spawn(c, "k1", vhLogged("k1"))
+		vrtReach("child-notice-while-stopping")
+	}
 	if site == 2 {
 		c.TellSelf(&vhUserMsg{N: 1})
 		w.run(300, "supervision-terminates")
@@ -225,4 +234,116 @@ func VH_C09_pause_commands() {
 	w.run(50, "cmd")
 	vrtAssert(!w.boxes[c].paused && vhSeenUser(c.actor.(*vhActor), 1) == 1, "resume-command-resumes")
 	vrtReach("done")
+}
+
+// VH_C08_escalate_chain: c0 fails, its parent p escalates (optionally through a
+// second escalating level m), the top supervisor gp decides (decision and
+// strategy symbolic); uncle u is gp's other child.
+func VH_C08_escalate_chain() {
+	vhLog = nil
+	w := vhNewWorld()
+	dG := &vhDecider{decision: vivid.SupervisionDecision(1 + vrtChoose(6))}
+	dP := &vhDecider{decision: vivid.SupervisionDecisionEscalate}
+	dM := &vhDecider{decision: vivid.SupervisionDecisionEscalate}
+	oneForAll := vrtChoose(2) == 1
+	hops := 1 + vrtChoose(2)
+	var strat vivid.SupervisionStrategy
+	if oneForAll {
+		strat = vivid.OneForAllStrategy(dG)
+	} else {
+		strat = vivid.OneForOneStrategy(dG)
+	}
+	gpa := vhLogged("gp")
+	gp := w.spawn(w.root, "gp", gpa, vivid.WithActorSupervisionStrategy(strat))
+	// t1 is gp's child on the failing branch: p itself, or the extra level m
+	var freshT1 *vhActor
+	provider := vivid.WithActorProvider(vivid.ActorProviderFN(func() vivid.Actor {
+		freshT1 = vhLogged("t1b")
+		return freshT1
+	}))
+	pa := vhLogged("p")
+	var p, m *Context
+	var t1 *Context
+	var t1a *vhActor
+	if hops == 2 {
+		ma := vhLogged("m")
+		m = w.spawn(gp, "m", ma, vivid.WithActorSupervisionStrategy(vivid.OneForOneStrategy(dM)), provider)
+		p = w.spawn(m, "p", pa, vivid.WithActorSupervisionStrategy(vivid.OneForOneStrategy(dP)))
+		t1, t1a = m, ma
+		vrtReach("two-hops")
+	} else {
+		p = w.spawn(gp, "p", pa, vivid.WithActorSupervisionStrategy(vivid.OneForOneStrategy(dP)), provider)
+		t1, t1a = p, pa
+	}
+	ua := vhLogged("u")
+	u := w.spawn(gp, "u", ua)
+	a0 := vhFailing("c0", vrtBool())
+	c0 := w.spawn(p, "c0", a0)
+	a1 := vhLogged("c1")
+	c1 := w.spawn(p, "c1", a1)
+	other := w.spawn(w.root, "other", vhLogged("other"))
+
+	c0.TellSelf(&vhUserMsg{N: 1})
+	c0.TellSelf(&vhBoom{})
+	c0.TellSelf(&vhUserMsg{N: 2})
+	p.TellSelf(&vhUserMsg{N: 7})
+	w.run(1200, "supervision-terminates")
+	all := []*Context{gp, p, u, c0, c1, other}
+	if m != nil {
+		all = append(all, m)
+	}
+	for _, c := range all {
+		if c.state == running {
+			c.TellSelf(&vhUserMsg{N: 100})
+		}
+	}
+	w.run(1200, "supervision-terminates")
+
+	dec := dG.decision
+	vrtAssert(dP.calls == 1, "strategy-consulted-exactly-once")
+	if hops == 2 {
+		vrtAssert(dM.calls == 1, "strategy-consulted-exactly-once")
+	}
+	vrtAssert(dG.calls == 1, "escalation-consults-grandparent-exactly-once")
+	vrtAssert(other.state == running && w.boxes[other].pauses == 0 && vhSeenUser(other.actor.(*vhActor), 100) == 1, "non-targets-untouched")
+	for _, c := range all {
+		vrtAssert(c.state == running || c.state == killed, "nobody-half-stopped")
+		if c.state == running && !c.zombie {
+			vrtAssert(!w.boxes[c].paused, "no-survivor-left-paused")
+			vrtAssert(len(w.boxes[c].usr) == 0 && len(w.boxes[c].sys) == 0, "no-survivor-left-with-undelivered-mail")
+			if va, ok := c.actor.(*vhActor); ok {
+				vrtAssert(vhSeenUser(va, 100) == 1, "survivor-processes-later-mail")
+			}
+		}
+	}
+	if !oneForAll && !dec.IsEscalate() {
+		vrtAssert(u.state == running && w.boxes[u].pauses == 0 && u.actor == vivid.Actor(ua), "one-for-one-touches-only-failing-child")
+	}
+	switch {
+	case dec.IsResume():
+		vrtReach("resume")
+		vrtAssert(t1.state == running && t1.actor == vivid.Actor(t1a), "resume-keeps-state")
+		vrtAssert(p.state == running && p.actor == vivid.Actor(pa), "resume-keeps-state")
+		vrtAssert(c0.state == running && c0.actor == vivid.Actor(a0) && c1.state == running, "resume-keeps-state")
+		vrtAssert(vhSeenUser(a0, 2) == 1, "queued-mail-delivered-after-resume-in-order")
+		vrtAssert(vhSeenUser(pa, 7) == 1, "queued-mail-delivered-after-resume-in-order")
+	case dec.IsRestart():
+		vrtReach("restart")
+		vrtAssert(t1.state == running && freshT1 != nil && t1.actor == vivid.Actor(freshT1), "restart-keeps-reference-resets-state")
+		if oneForAll {
+			vrtAssert(u.state == running && w.boxes[u].pauses >= 1, "one-for-all-restarts-all-children")
+		}
+	case dec.IsStop():
+		vrtReach("stop")
+		vrtAssert(t1.state == killed && p.state == killed && c0.state == killed && c1.state == killed, "stop-terminates-target")
+		notice := func(e vivid.Envelop) bool { return vhIsOwnKilled(t1.ref)(e.Message()) }
+		vrtAssert(vhCountEnv(w.boxes[gp], notice) == 1, "stop-notifies-parent")
+		vrtAssert(gp.state == running, "stop-leaves-supervisor-running")
+		if oneForAll {
+			vrtAssert(u.state == killed, "one-for-all-stops-all-children")
+		}
+	case dec.IsEscalate():
+		vrtReach("escalate")
+		vrtAssert(gp.state == killed && t1.state == killed && p.state == killed && u.state == killed && c0.state == killed && c1.state == killed, "escalation-ends-in-default-stop-of-the-escalating-subtree")
+	}
 }
